@@ -65,9 +65,10 @@ Blockers == <<
   <<"nodeDnd", "nodeDnd">>, <<"nodeDndFalse", "nodeDnd">>,
   <<"noPoolLabel", "pool">>, <<"poolUnknown", "pool">>,
   <<"podDndTrue", "podDnd">>, <<"podDndDur", "podDnd">>, <<"podDndDurEdge", "podDnd">>, <<"podDndDurExpired", "podDnd">>,
-  <<"podDndNoStart", "podDnd">>, <<"podDndInvalid", "podDnd">>, <<"podDndTerminal", "podDnd">>, <<"dsPodDnd", "podDnd">>,
+  <<"podDndNoStart", "podDnd">>, <<"podDndInvalid", "podDnd">>, <<"podDndTerminal", "podDnd">>, <<"podDndTerminating", "podDnd">>,
+  <<"dsPodDnd", "podDnd">>,
   <<"pdbZero", "pdb">>, <<"pdbOk", "pdb">>, <<"pdbMulti", "pdb">>, <<"pdbZeroWaived", "pdb">>, <<"pdbZeroTolerating", "pdb">>,
-  <<"pdbZeroOtherNs", "pdb">>,
+  <<"pdbZeroOtherNs", "pdb">>, <<"pdbZeroAll", "pdb">>, <<"pdbZeroNilSel", "pdb">>,
   <<"notConsolidatable", "cons">>, <<"consolidatableEdge", "cons">>, <<"consolidatableFalse", "cons">>,
   <<"poolKindFlip", "poolKind">>, <<"caNever", "ca">>, <<"caNeverStale", "ca">>, <<"whenEmpty", "policy">>, <<"buffer", "buffer">>,
   <<"notDrifted", "drift">>, <<"tgp", "tgp">>, <<"poolTgp", "poolTgp">> >>
@@ -98,7 +99,7 @@ Apply(b, vv, t) ==
       [] b = "podDndDurExpired"   -> Pod1(vv, LAMBDA p : [p EXCEPT !.dndKind = "dur", !.dndSec = DD, !.started = T0 - DD])
       [] b = "podDndNoStart"      -> Pod1(vv, LAMBDA p : [p EXCEPT !.dndKind = "dur", !.dndSec = DD, !.started = -1])
       [] b = "podDndInvalid"      -> Pod1(vv, LAMBDA p : [p EXCEPT !.dndKind = "invalid"])
-      [] b = "podDndTerminal"     -> IF Len(vv.pods) = 0 THEN vv
+      [] b \in {"podDndTerminal", "podDndTerminating"} -> IF Len(vv.pods) = 0 THEN vv
                                      ELSE LET w1 == Pod1(vv, LAMBDA p : [p EXCEPT !.dndKind = "true", !.active = FALSE, !.resched = FALSE])
                                           IN IF m = "emptiness" THEN w1 ELSE [w1 EXCEPT !.pods = Append(@, PlainPod)]
       [] b = "dsPodDnd"           -> IF vv.hasNode THEN [vv EXCEPT !.pods = Append(@, DsPod)] ELSE vv
@@ -108,6 +109,8 @@ Apply(b, vv, t) ==
       [] b = "pdbZeroWaived"      -> Pod1(vv, LAMBDA p : [p EXCEPT !.npdb = 1, !.pdbAllowed = 0, !.pdbWaived = TRUE])
       [] b = "pdbZeroTolerating"  -> Pod1(vv, LAMBDA p : [p EXCEPT !.npdb = 1, !.pdbAllowed = 0, !.evictKind = FALSE])
       [] b = "pdbZeroOtherNs"     -> vv
+      [] b = "pdbZeroAll"         -> Pod1(vv, LAMBDA p : [p EXCEPT !.npdb = 1, !.pdbAllowed = 0])   \* empty selector = every pod
+      [] b = "pdbZeroNilSel"      -> vv                                                            \* nil selector = no pod
       [] b = "notConsolidatable"  -> [vv EXCEPT !.consolidatable = "Absent"]       \* last pod event CA-1 seconds ago
       [] b = "consolidatableEdge" -> vv                                            \* last pod event exactly CA seconds ago
       [] b = "consolidatableFalse"-> [vv EXCEPT !.consolidatable = IF vv.managed THEN "False" ELSE @]
